@@ -229,6 +229,8 @@ func (h *condRun) descOf(v any) (string, bool, any) {
 		return prim(&Node{T: "oper", Op: &OpDesc{Builtin: int(tv)}})
 	case userOp:
 		return prim(&Node{T: "oper", Op: &OpDesc{User: true, Text: tv.text, Ctx: tv.ctx}})
+	case sliceOp:
+		return prim(&Node{T: "oper", Op: &OpDesc{User: true, Slice: true, Text: tv[0], Ctx: tv[1]}})
 	}
 	// Stacks, Conditions and their aliases: recover the akind from the Go
 	// type and the description from the ID
@@ -321,6 +323,8 @@ func (h *condRun) observe() (string, any) {
 		opT, opJ = fmt.Sprintf("(Some (OpBuiltin %d%%N))", int(tv)), fmt.Sprintf("builtin:%d", int(tv))
 	case userOp:
 		opT, opJ = fmt.Sprintf("(Some (OpUser %s %s))", coqBytes(tv.text), coqBytes(tv.ctx)), "user:"+tv.text+"/"+tv.ctx
+	case sliceOp:
+		opT, opJ = fmt.Sprintf("(Some (OpUser %s %s))", coqBytes(tv[0]), coqBytes(tv[1])), "user(slice):"+tv[0]+"/"+tv[1]
 	default:
 		opT, opJ = "(Some (OpBuiltin 999%N))", fmt.Sprintf("unexpected:%T", tv)
 	}
@@ -488,7 +492,7 @@ func (g *condGen) op(rejected bool) *OpDesc {
 	case x < 12:
 		return &OpDesc{Builtin: []int{0, 7, 200, 255}[g.r.Intn(4)]}
 	case x < 32:
-		return &OpDesc{User: true, Text: g.pick([]string{"~=", "in", ":=", " "}), Ctx: g.pick([]string{"custom", "c"})}
+		return &OpDesc{User: true, Slice: g.r.Pct(30), Text: g.pick([]string{"~=", "in", ":=", " "}), Ctx: g.pick([]string{"custom", "c"})}
 	}
 	return &OpDesc{Builtin: 1 + g.r.Intn(6)}
 }
